@@ -30,6 +30,7 @@ import (
 
 	"github.com/B1NARY-GR0UP/originium/pkg/bufferpool"
 	"github.com/B1NARY-GR0UP/originium/pkg/logger"
+	"github.com/B1NARY-GR0UP/originium/pkg/verifhook"
 	"github.com/B1NARY-GR0UP/originium/types"
 	"github.com/B1NARY-GR0UP/originium/utils"
 )
@@ -51,7 +52,9 @@ func Create(dir string) (*WAL, error) {
 
 	name := path.Join(dir, fmt.Sprintf("wal-%s.log", version))
 
+	verifhook.At("fs.pre", "create", name, 0)
 	file, err := os.OpenFile(name, os.O_CREATE|os.O_RDWR|os.O_APPEND, 0755)
+	verifhook.At("fs.post", "create", name, 0)
 	if err != nil {
 		return nil, err
 	}
@@ -102,9 +105,11 @@ func (w *WAL) Delete() error {
 	if err := w.close(); err != nil {
 		return err
 	}
+	verifhook.At("fs.pre", "remove", w.path, 0)
 	if err := os.Remove(w.path); err != nil {
 		return err
 	}
+	verifhook.At("fs.post", "remove", w.path, 0)
 	return nil
 }
 
@@ -144,13 +149,17 @@ func (w *WAL) Write(entries ...types.Entry) error {
 		w.logger.Debugf("wal prepare entry: %+v", entry)
 	}
 
+	verifhook.At("fs.pre", "write", w.path, buf.Len())
 	if err := binary.Write(w.fd, binary.LittleEndian, buf.Bytes()); err != nil {
 		return err
 	}
+	verifhook.At("fs.post", "write", w.path, buf.Len())
 
+	verifhook.At("fs.pre", "sync", w.path, 0)
 	if err := w.fd.Sync(); err != nil {
 		return err
 	}
+	verifhook.At("fs.post", "sync", w.path, 0)
 	w.logger.Debugf("wal commit %v bytes of entries", buf.Len())
 	return nil
 }
